@@ -314,7 +314,9 @@ func runPwire(ps config.Profiles, seq [][3]string) string {
 		if src.To4() == nil || dst.To4() == nil || !src.IsLoopback() || !dst.IsLoopback() {
 			return "bad-case"
 		}
-		conn, err := net.ListenUDP("udp4", &net.UDPAddr{IP: src})
+		// a CONNECTED socket, as stub resolvers use: a reply that leaves the proxy from another local address than the
+		// one the query was sent to never reaches it
+		conn, err := net.DialUDP("udp4", &net.UDPAddr{IP: src}, &net.UDPAddr{IP: dst, Port: port})
 		if err != nil {
 			return "err bind " + err.Error()
 		}
@@ -322,7 +324,7 @@ func runPwire(ps config.Profiles, seq [][3]string) string {
 		body := append(wireName(fmt.Sprintf("n%d", i%3), "example", "com"), 0, 1, 0, 1)
 		pl := append(be16(int(id)), 1, 0, 0, 1, 0, 0, 0, 0, 0, 0)
 		pl = append(pl, body...)
-		if _, err := conn.WriteToUDP(pl, &net.UDPAddr{IP: dst, Port: port}); err != nil {
+		if _, err := conn.Write(pl); err != nil {
 			conn.Close()
 			return "err send " + err.Error()
 		}
@@ -332,7 +334,7 @@ func runPwire(ps config.Profiles, seq [][3]string) string {
 			defer conn.Close()
 			_ = conn.SetReadDeadline(time.Now().Add(4 * time.Second))
 			b := make([]byte, 600)
-			n, _, err := conn.ReadFromUDP(b)
+			n, err := conn.Read(b)
 			if err != nil || n < 12 || b[0] != byte(id>>8) || b[1] != byte(id) {
 				outs[i] = "TIMEOUT"
 				return
@@ -355,6 +357,82 @@ func runPwire(ps config.Profiles, seq [][3]string) string {
 		outs[i] = hx([]byte(p))
 	}
 	return "seq=" + joinOrDash(outs)
+}
+
+// genPwireLine: a `pwire` case - 2..5 clients, each on its own loopback source and destination address, and a profile
+// list whose entries tell those addresses apart (interface entry of lo, host / subnet entries, unconditional entry)
+func (r *Rng) genPwireLine(c *Ctx) string {
+	k := 2 + r.Intn(4)
+	var ts []string
+	for j := 0; j < k; j++ {
+		ts = append(ts, hx(net.IPv4(127, 0, 1, byte(1+r.Intn(4))).To4())+"/"+hx(net.IPv4(127, 0, 0, byte(1+r.Intn(3))).To4())+"/-")
+	}
+	var wes []profEntry
+	for _, raw := range []string{"lo=p3", "127.0.1.2/32=p1", "127.0.1.0/30=p2", "127.0.0.0/8=abc123", "x", "127.0.1.3/32=P1"} {
+		if r.Chance(55) {
+			if e, ok := r.genProfEntryRaw(c, raw); ok {
+				if raw == "lo=p3" && r.Chance(40) {
+					e.final = destsTok([]net.IP{net.IPv4(127, 0, 0, 2).To4()})
+				}
+				wes = append(wes, e)
+			}
+		}
+	}
+	for a := len(wes) - 1; a > 0; a-- {
+		b := r.Intn(a + 1)
+		wes[a], wes[b] = wes[b], wes[a]
+	}
+	var sb strings.Builder
+	fmt.Fprintf(&sb, "pwire %s", strings.Join(ts, ","))
+	for _, e := range wes {
+		fmt.Fprintf(&sb, " %s;%s;%s;%s", hx([]byte(e.raw)), e.fields, e.dests, e.final)
+	}
+	return sb.String()
+}
+
+func init() {
+	// localaddr area (C01, C11, C15): only `pwire` cases - several UDP clients on their own local source and destination
+	// addresses through ONE wildcard listener, all in flight together; every one must get its reply (connected sockets:
+	// from the address it wrote to) and be resolved under the profile of its own addresses.
+	areas["localaddr"] = func(c *Ctx) error {
+		run := func(l string) {
+			l = adaptProfLine(c, l)
+			f := strings.Split(l, " ")
+			if len(f) < 2 || f[0] != "pwire" {
+				c.Emit(l, "bad-case")
+				return
+			}
+			var seq [][3]string
+			for _, t := range strings.Split(f[1], ",") {
+				g := strings.Split(t, "/")
+				if len(g) != 3 {
+					c.Emit(l, "bad-case")
+					return
+				}
+				seq = append(seq, [3]string{g[0], g[1], g[2]})
+			}
+			profWire = true
+			out := runProfRetry(c, nil, nil, nil, f[2:], seq)
+			profWire = false
+			if out == envGlitch {
+				c.Stat("env:case-dropped")
+				return
+			}
+			c.Emit(l, out)
+		}
+		if ls := replayLines(); ls != nil {
+			for _, l := range ls {
+				run(l)
+			}
+			return nil
+		}
+		r := NewRng(c.seed)
+		for i := 0; i < c.n; i++ {
+			c.Stat("op:pwire")
+			run(r.genPwireLine(c))
+		}
+		return nil
+	}
 }
 
 // adaptProfLine makes a stored case independent of the machine it was recorded on: the addresses
@@ -600,34 +678,8 @@ func init() {
 			}
 			if pwireLeft > 0 && r.Intn(c.n) < 4*pwireBudget {
 				pwireLeft--
-				// the tuples on real sockets, all in flight together (see runPwire)
-				k := 2 + r.Intn(4)
-				var ts []string
-				for j := 0; j < k; j++ {
-					ts = append(ts, hx(net.IPv4(127, 0, 1, byte(1+r.Intn(4))).To4())+"/"+hx(net.IPv4(127, 0, 0, byte(1+r.Intn(3))).To4())+"/-")
-				}
-				var wes []profEntry
-				for _, raw := range []string{"lo=p3", "127.0.1.2/32=p1", "127.0.1.0/30=p2", "127.0.0.0/8=abc123", "x", "127.0.1.3/32=P1"} {
-					if r.Chance(55) {
-						if e, ok := r.genProfEntryRaw(c, raw); ok {
-							if raw == "lo=p3" && r.Chance(40) {
-								e.final = destsTok([]net.IP{net.IPv4(127, 0, 0, 2).To4()})
-							}
-							wes = append(wes, e)
-						}
-					}
-				}
-				for a := len(wes) - 1; a > 0; a-- {
-					b := r.Intn(a + 1)
-					wes[a], wes[b] = wes[b], wes[a]
-				}
-				var sb strings.Builder
-				fmt.Fprintf(&sb, "pwire %s", strings.Join(ts, ","))
-				for _, e := range wes {
-					fmt.Fprintf(&sb, " %s;%s;%s;%s", hx([]byte(e.raw)), e.fields, e.dests, e.final)
-				}
 				c.Stat("op:pwire")
-				runLine(sb.String())
+				runLine(r.genPwireLine(c))
 				continue
 			}
 			if r.Chance(15) {
